@@ -559,6 +559,63 @@ theorem sequential_order (w : World) (ks : List Nat) :
   simp only [applyOrder, this]
   simpa using hsubs
 
+/-! ### zero_grad / freeze / unfreeze act on exactly the parameters of the module -/
+theorem updPar_getElem? (w : World) (p : Nat) (f : Par → Par) (k : Nat) :
+    (updPar w p f).pars[k]? = (w.pars[k]?).map (fun P => if k = p then f P else P) := by
+  simp only [updPar, List.getElem?_map, List.getElem?_zipIdx]
+  cases h : w.pars[k]? with
+  | none => simp
+  | some P => simp
+
+theorem updPar_mods (w : World) (p : Nat) (f : Par → Par) : (updPar w p f).mods = w.mods := rfl
+
+/-- folding `updPar` over a duplicate-free list of parameter ids applies `f` once to each listed parameter and leaves every
+    other parameter (and every module) as it was -/
+theorem foldl_updPar (f : Par → Par) : ∀ (ps : List Nat) (w : World), ps.Nodup →
+    (ps.foldl (fun w p => updPar w p f) w).mods = w.mods ∧
+    ∀ k, (ps.foldl (fun w p => updPar w p f) w).pars[k]? = (w.pars[k]?).map (fun P => if k ∈ ps then f P else P) := by
+  intro ps
+  induction ps with
+  | nil => intro w _; exact ⟨rfl, fun k => by simp⟩
+  | cons p ps ih =>
+    intro w hnd
+    obtain ⟨hp, hps⟩ := List.nodup_cons.mp hnd
+    obtain ⟨h1, h2⟩ := ih (updPar w p f) hps
+    refine ⟨by rw [List.foldl_cons, h1, updPar_mods], fun k => ?_⟩
+    rw [List.foldl_cons, h2 k, updPar_getElem?]
+    cases hk : w.pars[k]? with
+    | none => simp
+    | some P =>
+      simp only [Option.map_some, List.mem_cons]
+      by_cases hkp : k = p
+      · subst hkp; simp [hp]
+      · simp [hkp]
+
+/-- **`Module.zero_grad()` acts on exactly the trainable parameters `parameters()` lists**: each of them gets a zero gradient,
+    every other parameter of the world — frozen ones, parameters of other modules, also a parameter that was given the SAME
+    gradient values (`q.grad = p.grad`) — keeps what it had; no module changes. -/
+theorem zeroGrad_exact (w : World) (m : Nat) :
+    (zeroGrad w m).mods = w.mods ∧
+    ∀ k, (zeroGrad w m).pars[k]? = (w.pars[k]?).map (fun P =>
+      if k ∈ parameters w (fuelOf w) m ∧ P.reqGrad = true then { P with hasGrad := true, gval := some 0 } else P) := by
+  obtain ⟨h1, h2⟩ := foldl_updPar (fun P => if P.reqGrad then { P with hasGrad := true, gval := some 0 } else P)
+    (parameters w (fuelOf w) m) w (parameters_nodup w _ m)
+  refine ⟨h1, fun k => ?_⟩
+  rw [zeroGrad, h2 k]
+  cases w.pars[k]? with
+  | none => rfl
+  | some P =>
+    simp only [Option.map_some]
+    by_cases hk : k ∈ parameters w (fuelOf w) m <;> by_cases hr : P.reqGrad = true <;> simp [hk, hr]
+
+/-- **`freeze()` / `unfreeze()` set the flag of exactly the parameters `parameters()` lists** and touch nothing else -/
+theorem setReqGrad_exact (v : Bool) (w : World) (m : Nat) :
+    (setReqGrad v w m).mods = w.mods ∧
+    ∀ k, (setReqGrad v w m).pars[k]? = (w.pars[k]?).map (fun P =>
+      if k ∈ parameters w (fuelOf w) m then { P with reqGrad := v } else P) := by
+  obtain ⟨h1, h2⟩ := foldl_updPar (fun P => { P with reqGrad := v }) (parameters w (fuelOf w) m) w (parameters_nodup w _ m)
+  exact ⟨h1, fun k => by rw [setReqGrad, h2 k]⟩
+
 /-! ### Non-vacuity -/
 def w0 : World :=
   let (w, m0) := newMod World.empty
